@@ -27,6 +27,7 @@ def check(prog, rep):
     Z.check_dask_tables(prog, rep, m, 'stats[dask]')
     Z.check_derived_stats(prog, rep, m, fs, 'stats[dask]')
     Z.check_global_ids(prog, rep, m, 'stats[dask]')
+    Z.check_alignment(prog, rep, m, 'stats', 'stats[dask]')       # the blocks that are paired are the aligned ones
     rep.floor('Z1', 1)
     rep.floor('Z2', 1)
     rep.floor('Z3', 1)
